@@ -49,91 +49,7 @@ def dense(v):
     return v.toarray() if hasattr(v, "toarray") else array(v)
 
 
-def api_history(ctx):
-    """Histories of the cache protocol itself (what a discipline calls): cache_outputs / cache_jacobian /
-    lookup / clear / reopen, in any order, against a dict model with first-write-wins slots."""
-    from gemseo.caches.hdf5_cache import HDF5Cache
-    from gemseo.caches.memory_full_cache import MemoryFullCache
-    from gemseo.caches.simple_cache import SimpleCache
-    from gemseo.utils.singleton import SingleInstancePerFileAttribute
-
-    t = ctx.tape
-    policy = 1 + t.weighted([3, 3, 1, 3], "policy")  # simple, memory local, memory shared, hdf5
-    pname = ["", "SimpleCache", "MemoryFullCache/local", "MemoryFullCache/shared", "HDF5Cache"][policy]
-    path = str(ctx.scratch / "api.h5")
-    SingleInstancePerFileAttribute.instances.clear()
-
-    def make():
-        if policy == 1:
-            return SimpleCache()
-        if policy in (2, 3):
-            return MemoryFullCache(is_memory_shared=policy == 3)
-        return HDF5Cache(hdf_file_path=path, hdf_node_path="node")
-
-    cache = make()
-    n_keys = t.randint(2, 4, "n_keys")
-    keys = [(float(k), float(k % 2)) for k in range(n_keys)]
-    model = {}  # key -> {"out": value or None, "jac": value or None}; SimpleCache: at most one key
-    ops = []
-    sig = f"cache-protocol {pname}"
-    counter = [0]
-
-    def inp(k):
-        return {"a": array([k[0], 1.0]), "b": array([k[1]])}
-
-    def check_all(after):
-        for k in keys:
-            e = cache[inp(k)]
-            m = model.get(k, {"out": None, "jac": None})
-            got_out = None if not e.outputs else float(array(e.outputs["y"])[0])
-            try:
-                got_jac = None if not e.jacobian else float(dense(e.jacobian["y"]["a"])[0, 0])
-            except (KeyError, TypeError, IndexError):
-                got_jac = "malformed"
-            if got_out != m["out"] or got_jac != m["jac"]:
-                ctx.violate("C05.cache_protocol", sig, f"after {after}: cache[{k}] holds outputs y={got_out}, Jacobian {got_jac}; the values stored for this input are y={m['out']}, Jacobian {m['jac']}; ops={ops}")
-        n = len(cache)
-        if n != len(model):
-            ctx.violate("C05.entries", sig, f"after {after}: {n} entries, {len(model)} inputs were stored; ops={ops}")
-
-    for i in range(t.randint(1, 14, "n_ops")):
-        with t.frame("op"):
-            op = t.weighted([5, 5, 1, 2], "op")
-            k = keys[t.choice(n_keys, "key")]
-            counter[0] += 1
-            val = float(counter[0])  # every written value is unique: each read is attributable to one write
-            if op == 0:
-                ops.append(("cache_outputs", k, val))
-                cache.cache_outputs(inp(k), {"y": array([val])})
-                if policy == 1 and k not in model:
-                    model.clear()
-                m = model.setdefault(k, {"out": None, "jac": None})
-                if m["out"] is None:
-                    m["out"] = val
-            elif op == 1:
-                ops.append(("cache_jacobian", k, val))
-                cache.cache_jacobian(inp(k), {"y": {"a": array([[val, 0.0]])}})
-                if policy == 1 and k not in model:
-                    model.clear()
-                m = model.setdefault(k, {"out": None, "jac": None})
-                if m["jac"] is None:
-                    m["jac"] = val
-            elif op == 2 and (model or policy != 4):
-                ops.append(("clear",))
-                cache.clear()
-                model.clear()
-            elif op == 3 and policy == 4:
-                ops.append(("reopen",))
-                SingleInstancePerFileAttribute.instances.clear()
-                cache = make()
-                ctx.fire("cache_reopened_from_file")
-            else:
-                continue
-            check_all(ops[-1])
-    SingleInstancePerFileAttribute.instances.clear()
-    ctx.event("ops", canon(ops))
-    ctx.case((pname, canon(ops)), nontrivial=len(ops) >= 3)
-    ctx.sample = {"family": "cache protocol", "policy": pname, "ops": [list(map(str, o)) for o in ops]}
+from ._cache_protocol import api_history  # noqa: E402
 
 
 def run(ctx):
